@@ -26,7 +26,7 @@ def expr(draw, args, depth):
     if depth == 0 or draw(st.integers(0, 3)) == 0:
         name = draw(st.sampled_from(sorted(args)))
         return dict(t='arg', name=name, shape=args[name]['shape'])
-    op = draw(st.sampled_from(['add', 'mul', 'scale', 'pow', 'sum', 'index', 'sin', 'outer', 'contract', 'addconst']))
+    op = draw(st.sampled_from(['add', 'mul', 'scale', 'pow', 'sum', 'index', 'sin', 'outer', 'contract', 'addconst', 'where']))
     a = draw(expr(args, depth - 1))
     if op == 'add' or op == 'mul':
         b = draw(expr(args, depth - 1))
@@ -39,6 +39,7 @@ def expr(draw, args, depth):
     if op == 'addconst': return dict(t='addconst', a=a, c=draw(st.sampled_from(V)), shape=a['shape'])
     if op == 'pow': return dict(t='pow', a=a, e=draw(st.sampled_from([2, 2, 3])), shape=a['shape'])
     if op == 'sin': return dict(t='sin', a=a, shape=a['shape'])
+    if op == 'where': return dict(t='where', a=a, c=draw(st.sampled_from([-.75, .1, .6])), s=[draw(st.sampled_from([.5, 2., -1.])), draw(st.sampled_from([1., -.5, 3.]))], shape=a['shape'])
     if op == 'sum':
         if not a['shape']: return a
         ax = draw(st.integers(0, len(a['shape']) - 1))
@@ -64,7 +65,7 @@ def fix_shapes(e):
         s = list(e['a']['shape']); del s[e['axis']]; e['shape'] = s
     elif t in ('add', 'mul'):
         e['shape'] = e['a']['shape'] if e['a']['shape'] else e['b']['shape']
-    elif t in ('scale', 'addconst', 'pow', 'sin'):
+    elif t in ('scale', 'addconst', 'pow', 'sin', 'where'):
         e['shape'] = e['a']['shape']
     elif t == 'index': e['shape'] = e['a']['shape'][1:]
     elif t == 'outer': e['shape'] = e['a']['shape'] + e['b']['shape']
@@ -84,6 +85,7 @@ def ev(e, A, np=numpy):
     if t == 'addconst': return a + e['c']
     if t == 'pow': return a ** e['e']
     if t == 'sin': return numpy.sin(a)
+    if t == 'where': return numpy.choose(numpy.greater(a, e['c']), [a * e['s'][0], a * e['s'][1]])      # the operand also sits below a boolean node
     if t == 'sum': return numpy.sum(a, axis=e['axis'])
     if t == 'sum-all': return numpy.sum(a, axis=tuple(range(numpy.ndim(a))))
     if t == 'index': return a[e['i']]
@@ -100,7 +102,7 @@ def uses(e, name):
 
 
 def polynomial(e):
-    if e['t'] == 'sin': return False
+    if e['t'] in ('sin', 'where'): return False
     return all(polynomial(e[k]) for k in ('a', 'b') if k in e)
 
 
@@ -327,7 +329,78 @@ def _show(e):
     return f'{t}({_show(e["a"])}' + (f',{e[extra]}' if extra else '') + ')'
 
 
-SUBS = [Sub('arguments', cases, check, {'quick': 300, 'thorough': 6000}, timeout=120)]
+# ---- function.field / dotarg: inner product of the first axes of the arrays with an argument -----------------------------------
+
+@st.composite
+def field_cases(draw, tier):
+    narr = draw(st.integers(1, 3))
+    arrays = []
+    for _ in range(narr):
+        n = draw(st.integers(1, 3)); trail = draw(st.sampled_from([[], [], [2], [3], [2, 3], [2]]))
+        arrays.append(dict(shape=[n] + trail, v=[draw(st.sampled_from(V)) for _ in range(n * int(numpy.prod(trail)) if trail else n)]))
+    shape = draw(st.sampled_from([[], [], [2], [3], [2, 2]]))
+    nargs = int(numpy.prod([a['shape'][0] for a in arrays])) * (int(numpy.prod(shape)) if shape else 1)
+    return dict(arrays=arrays, shape=shape, value=[draw(st.sampled_from(V)) for _ in range(nargs)], how=draw(st.sampled_from(['field', 'dotarg', 'field-replace', 'field-derivative'])), points=draw(st.booleans()))
+
+
+def check_field(case, rec):
+    """field(name, A1, ..., Ak, shape=s) is the argument of shape (n1, .., nk) + s contracted with the first axis of every array, the remaining axes of
+    the arrays appended in the order of the arrays: result shape s + A1.shape[1:] + ... + Ak.shape[1:]"""
+    from nutils import function, mesh
+    with warnings.catch_warnings(), numpy.errstate(all='ignore'):
+        warnings.simplefilter('ignore')
+        arrs = [numpy.array(a['v'], dtype=float).reshape(a['shape']) for a in case['arrays']]
+        s = tuple(case['shape'])
+        argshape = tuple(a.shape[0] for a in arrs) + s
+        U = numpy.array(case['value'], dtype=float).reshape(argshape)
+        # reference: contract axis by axis
+        want = U
+        for a in arrs:
+            want = numpy.tensordot(want, a, axes=([0], [0]))      # removes the leading dof axis, appends a.shape[1:]
+        scale = 1.
+        nut = [function.Array.cast(a) for a in arrs]
+        if case['points']:
+            topo, x = mesh.line(2)
+            smp = topo.sample('gauss', 1)
+            nut = [a * (1 + x) if i == 0 else a for i, a in enumerate(nut)]
+        how = case['how']
+        try:
+            if how == 'dotarg' and len(arrs) == 1:
+                f = function.dotarg('u', nut[0], shape=s)
+            else:
+                f = function.field('u', *nut, shape=s)
+            if how == 'field-replace':
+                f = function.replace_arguments(f, dict(u=function.Argument('w', argshape) * 2.)); args = dict(w=U / 2.)
+            else:
+                args = dict(u=U)
+            if tuple(f.shape) != want.shape:
+                raise Violation('field-shape', f'field with arrays {[a.shape for a in arrs]} shape={s}: announced shape {tuple(f.shape)}, documented {want.shape}', where='field:shape')
+            if tuple(f.arguments[('w' if how == 'field-replace' else 'u')][0]) != argshape:
+                raise Violation('field-argument', f'argument shape {f.arguments} expected {argshape}', where='field:argument')
+            if how == 'field-derivative':
+                d = function.derivative(f, 'u')
+                got = numpy.asarray(smp.eval(d, arguments=args)) if case['points'] else numpy.asarray(function.eval(d, arguments=args))[None]
+                # f is linear in u: derivative contracted with u gives f
+                got = numpy.stack([numpy.tensordot(g, U, axes=(list(range(want.ndim, want.ndim + U.ndim)), list(range(U.ndim)))) for g in got])
+            else:
+                got = numpy.asarray(smp.eval(f, arguments=args)) if case['points'] else numpy.asarray(function.eval(f, arguments=args))[None]
+        except Violation:
+            raise
+        except Exception as e:
+            raise Violation('field-raised', f'{how} with arrays {[a.shape for a in arrs]} shape={s}: {type(e).__name__}: {str(e)[:200]}', where='field:' + type(e).__name__)
+        if case['points']:
+            X = numpy.asarray(smp.eval(x)).reshape(-1)
+            ref = numpy.stack([want * (1 + xp) for xp in X])
+        else:
+            ref = want[None]
+        if got.shape != ref.shape or abs(got - ref).max() > 1e-11 * (1 + abs(ref).max()):
+            raise Violation('field-value', f'{how} with arrays {[a.shape for a in arrs]} shape={s} points={case["points"]}: {got.tolist()} != {ref.tolist()}', where='field:value')
+    rec.nontrivial = sum(1 for a in arrs if a.ndim > 1) >= 2 or bool(s)
+    rec.label('field:' + how, 'field-arrays=%d' % len(arrs), *(['field:two-arrays-with-trailing-axes'] if sum(1 for a in arrs if a.ndim > 1) >= 2 else []))
+
+
+SUBS = [Sub('arguments', cases, check, {'quick': 300, 'thorough': 6000}, weight=4, timeout=120),
+        Sub('field', field_cases, check_field, {'quick': 300, 'thorough': 5000}, weight=1, timeout=60)]
 
 TRIGGERS = {}
 
